@@ -163,6 +163,26 @@ def _execute(rel):
     return [dict(r) for r in rel.engine.execute(rel)]
 
 
+def _history(env, prog):
+    """Earlier life of the same engine objects: the same operation sequence over leaves of the same names and columns that
+    were empty then (an equal-but-not-identical tree - leaves compare by engine, name and columns) is built, inspected and
+    executed.  Anything remembered per *equal* relation is remembered before the tree under test exists."""
+    env.history = False  # this check's own, stronger history replaces the generic one of prog.build
+    for name in sorted(_leaves_in(prog, set())):
+        if name in SPECIAL:
+            env.add_special_leaf(name, SPECIAL[name][0], "it1", SPECIAL[name][1])
+        else:
+            env.add_iter_leaf(name, LEAVES[name], [], min_rows=0, max_rows=None)
+    try:
+        d = build(prog, env)
+        _ = (d.min_rows, d.max_rows, d.columns, str(d))
+        _execute(d)
+    except Exception:  # noqa: BLE001 - the earlier tree is not the subject
+        pass
+    env.leaves.clear()
+    env.tables.clear()
+
+
 def run_shape(shape, tier):
     out = _run_shape(shape, tier, 3000 if tier == "quick" else 12000)
     if out["status"] == INCONCLUSIVE and max(shape["nrows"].values()) > 2:
@@ -189,8 +209,9 @@ def _run_shape(shape, tier, max_paths):
     def h(ctx):
         env = Env(symbolic=True)
         rows = {}
-        _setup(ctx, env, shape, rows)
         templates.declare(ctx, env, shape["params"], shape["cons"])
+        _history(env, prog)
+        _setup(ctx, env, shape, rows)
         try:
             rel = build(prog, env)
             got = _execute(rel)
@@ -241,6 +262,7 @@ def concrete_check(prog, rows, bind, kind, decl):
     env = Env()
     env.bind = dict(bind)
     leafrows = {}
+    _history(env, prog)
     for name in sorted(_leaves_in(prog, set())):
         if name in SPECIAL:
             env.add_special_leaf(name, SPECIAL[name][0], "it1", SPECIAL[name][1])
